@@ -75,6 +75,9 @@ def gen_spec(seed: int, idx: int, tier: str) -> tuple[dict, list[dict], random.R
     spec["collide"] = rng.random() < 0.3
     spec["name_salt"] = rng.randrange(4)
     spec["clock_jumps"] = rng.random() < 0.2
+    spec["missing_tmp"] = rng.random() < 0.04
+    if spec["missing_tmp"]:
+        spec["decoys"] = {k: v for k, v in spec["decoys"].items() if not k.startswith(("tmp/", "alt-tmp/"))}
     spec["t0"] = procworld.T0 + rng.choice([0, 0, 86400 * 200, -86400 * 3000, 86400 * 9000])
     if rng.random() < 0.3:
         kinds = []
@@ -114,7 +117,8 @@ def oracles(spec: dict, inputs: list[dict], r: dict, base: list) -> list[dict]:
             # tempfile's own writability probe, interrupted between its create and its unlink inside the
             # stdlib: not a file scriptplan created or could know about
             excused_paths.add(path)
-        if act == "err" and (op in ("create", "mkdir", "open-w") or path.split("/")[-1].startswith(PROBE_PREFIX)):
+        natural_fail = act == "ok" and ev[6] not in (0, None) and op == "create" and path.split("/")[-1].startswith(PROBE_PREFIX) and ev[6] != 17
+        if natural_fail or act == "err" and (op in ("create", "mkdir", "open-w") or path.split("/")[-1].startswith(PROBE_PREFIX)):
             # a temp candidate the stdlib gives up on: failed create, or any failure on its writability probe
             create_fault_roots[pi].add(path.split("/")[0])
         if act in ("err", "sigint"):
@@ -335,6 +339,7 @@ def shrink_candidates(spec: dict, inputs: list[dict]):
 
 # ----------------------------------------------------------------------------- front end
 
+EXPECTED_PROBES = ["success", "except-FileNotFoundError", "except-ReportGenerationError", "except-Exception", "click-abort", "main-fatal", "injected-EEXIST", "tmp-fallback-to-alt", "tmp-fallback-to-cwd", "killed"]
 CONFIGS = [
     {"hashseed": 0, "block": []},
     {"hashseed": 1, "block": []},
